@@ -33,7 +33,7 @@ type Case struct {
 	Tree        []Node
 	Method      string
 	Path        string
-	ErrKind     string // fiber | plain | fallthrough (framework 404/405)
+	ErrKind     string // fiber | wrapped | joined (framework error value, directly or in the chain) | plain | fallthrough (framework 404/405)
 	ErrCode     int    `json:",omitempty"`
 	ChainLen    int    // handlers in the /x chain of every app
 	ErrPos      int    // which handler of the chain raises the error (0-based; >= ChainLen: none, falls through)
@@ -74,6 +74,11 @@ func (c Case) raise() error {
 	switch c.ErrKind {
 	case "fiber":
 		return fiber.NewError(c.ErrCode, "custom")
+	case "wrapped":
+		// a framework error value further down the error chain is still a framework error value
+		return fmt.Errorf("while handling: %w", fiber.NewError(c.ErrCode, "custom"))
+	case "joined":
+		return errors.Join(errors.New("cleanup failed"), fiber.NewError(c.ErrCode, "custom"))
 	default:
 		return errors.New("boom")
 	}
@@ -213,7 +218,7 @@ func check(c Case) vk.Verdict {
 			}
 		default:
 			// default handler: status of the framework error value, 500 for other errors; 404/405 for fall-through
-			if c.ErrKind == "fiber" && st != c.ErrCode && st != 404 && st != 405 {
+			if (c.ErrKind == "fiber" || c.ErrKind == "wrapped" || c.ErrKind == "joined") && st != c.ErrCode && st != 404 && st != 405 {
 				return vk.Failf("%s: default handler answered %d for fiber.NewError(%d)", ctx, st, c.ErrCode)
 			}
 			if c.ErrKind == "plain" && st != 500 && st != 404 && st != 405 {
@@ -284,7 +289,7 @@ func genCase(t *rapid.T) Case {
 		c.Path = "/" + c.Path
 	}
 	c.Method = rapid.SampledFrom([]string{"GET", "GET", "POST", "PUT"}).Draw(t, "method")
-	c.ErrKind = rapid.SampledFrom([]string{"fiber", "plain", "fallthrough"}).Draw(t, "ek")
+	c.ErrKind = rapid.SampledFrom([]string{"fiber", "plain", "fallthrough", "wrapped", "joined"}).Draw(t, "ek")
 	c.ErrCode = rapid.SampledFrom([]int{400, 403, 418, 503}).Draw(t, "code")
 	c.ChainLen = rapid.IntRange(1, 3).Draw(t, "chain")
 	c.ErrPos = rapid.IntRange(0, c.ChainLen).Draw(t, "errpos")
